@@ -53,8 +53,8 @@ def check(world, tier):
         return v is not None and v[0] == "i" and s_.ctx.entails(lin.le(lin.const(1), v[1]))
 
     def sfield(s_, name):
-        i = L.fi.get(name)
-        return eng.read(s_, L.self_root, (i,)) if i is not None else None
+        pth = L.fi.get(name)
+        return eng.read(s_, L.self_root, tuple(pth), eng.static_type(L.self_root, tuple(pth))) if pth is not None else None
 
     for s_ in backs:
         kind, ex, rp, sp = gv(s_, "kind"), gv(s_, "v_exists"), gv(s_, "reply"), gv(s_, "spawned")
